@@ -44,7 +44,7 @@ type c15pnode struct {
 	greedy   bool
 }
 
-var c15symNames = []string{"A", "B", "C", "D"}
+var c15symNames = []string{"A", "a", "B", "C"} // "a": pattern variables are case-sensitive, A and a are two variables
 
 func (n *c15pnode) tokens() []string {
 	switch n.kind {
@@ -558,6 +558,12 @@ func (c15) Gen(rng *rand.Rand, tier string, idx int) Case {
 			stat("within-fractional-number")
 		}
 	}
+	if !sqlMode && within > 0 && rng.Intn(2) == 0 {
+		// the small timestamps of the rows ride on a real epoch, in seconds, milliseconds, microseconds or nanoseconds (the
+		// engine guesses the unit from the magnitude); WITHIN is the same number of those units
+		c.Cfg = append(c.Cfg, []string{"tsscale", []string{"s", "ms", "us", "ns"}[rng.Intn(4)]})
+		stat("epoch-timestamps")
+	}
 	c.Cfg = append(c.Cfg, []string{"mode", mode}, []string{"rows", rowsTok}, append([]string{"skip"}, skip...),
 		[]string{"within", strconv.Itoa(within)}, []string{"cls", "t"}, append([]string{"pat"}, tree.tokens()...))
 	if !sqlMode && rng.Intn(10) == 0 {
@@ -707,6 +713,7 @@ func c15cutAt(c Case, limit int) int {
 			continue
 		}
 		row := c15row(op)
+		row["ts"] = row["ts"].(int64) + cf.tsBase
 		eng.Process(row, row["p"].(string))
 		if r, _ := eng.VerifMaxRuns(); r > limit {
 			return i
@@ -722,15 +729,28 @@ type c15conf struct {
 	skip         []string
 	within       int
 	wfrac        bool // WITHIN written as a fractional number of microseconds
+	tsBase       int64 // cfg tsscale: the rows' timestamps are tsBase + t, WITHIN is within × tsUnit nanoseconds
+	tsUnit       int64
 	maxRows      int
 	tree         *c15pnode
 	defs         map[int][]c15atom
 }
 
 func c15parse(cfg [][]string) c15conf {
-	cf := c15conf{defs: map[int][]c15atom{}, skip: []string{"past"}}
+	cf := c15conf{defs: map[int][]c15atom{}, skip: []string{"past"}, tsUnit: 1}
 	for _, l := range cfg {
 		switch l[0] {
+		case "tsscale":
+			switch l[1] {
+			case "s":
+				cf.tsBase, cf.tsUnit = 1_700_000_000, 1_000_000_000
+			case "ms":
+				cf.tsBase, cf.tsUnit = 1_700_000_000_000, 1_000_000
+			case "us":
+				cf.tsBase, cf.tsUnit = 1_700_000_000_000_000, 1_000
+			case "ns":
+				cf.tsBase, cf.tsUnit = 1_700_000_000_000_000_000, 1
+			}
 		case "mode":
 			cf.sql = l[1] == "sql"
 		case "rows":
@@ -771,7 +791,7 @@ func (cf c15conf) spec() *types.MatchRecognizeSpec {
 		OrderBy:     []types.OrderByField{{Expression: "ts"}},
 		Measures:    cf.measures(),
 		Pattern:     cf.tree.toTypes(),
-		Within:      time.Duration(cf.within),
+		Within:      time.Duration(int64(cf.within) * cf.tsUnit),
 	}
 	if cf.allRows {
 		sp.RowsPerMatch = types.RowsPerMatchAll
@@ -931,6 +951,7 @@ func (c15) Exec(c Case) [][][]string {
 				continue
 			}
 			row := c15row(op)
+			row["ts"] = row["ts"].(int64) + cf.tsBase
 			var ls [][]string
 			for _, r := range eng.Process(row, row["p"].(string)) {
 				ls = append(ls, c15line(cf, r))
